@@ -120,22 +120,30 @@ def run(tier):
         programs.append(('random', scriptgen.program_text(prog), {}))
     gl = {'g0': None, 'g1': interp.vflt(2.0), 'g2': ['str', 'ab'], 'depth': interp.vflt(0.0)}
 
-    def mk(text, files, limit):
+    def mk(text, files, limit, debug=False):
         pool = interp.Pool()
         g = dict(gl)
         g['g0'] = pool.arr([interp.vflt(1), interp.vflt(2), ['str', 'x']])
-        return {'text': text, 'files': files, 'globals': g, 'max': limit, 'want_model': True, 'rerun_same_options': True}
+        c = {'text': text, 'files': files, 'globals': g, 'max': limit, 'want_model': True, 'rerun_same_options': True}
+        if debug:
+            c['debug'] = True
+        return c
+
+    # the same hand-shaped programs in DEBUG mode (failed calls are reported through logFn): the metamorphic clauses only - under a smaller
+    # limit the log, debug lines included, is still a prefix of the unlimited run's log
+    programs += [(tag + '+debug', text + "zq = arrayLength(5)\nsystemLog('tail')\n", files) for tag, text, files in programs
+                 if tag in ('recursion', 'callback', 'include', 'loop')]
 
     # pass 1: unlimited (capped) runs give N
     # (non-terminating recursion is only ever run under small limits: CPython's recursion limit is out of scope)
-    base = core.run_impl('run_script', [mk(t, f, 120 if tag == 'forever' else CAP) for tag, t, f in programs])
+    base = core.run_impl('run_script', [mk(t, f, 120 if tag == 'forever' else CAP, tag.endswith('+debug')) for tag, t, f in programs])
     cases, meta = [], []
     for pi, ((tag, text, files), b) in enumerate(zip(programs, base)):
         if 'model' not in b:
             continue
         n = None if 'rt' in b and b['rt'].startswith('Exceeded maximum') else b['count']
         for lim in limits_for(n, r, tier):
-            cases.append(mk(text, files, lim if lim > 0 else 0))
+            cases.append(mk(text, files, lim if lim > 0 else 0, tag.endswith('+debug')))
             meta.append((pi, lim, n))
     impl = core.run_impl('run_script', cases)
 
@@ -174,6 +182,10 @@ def run(tier):
             if b['log'][:len(res['log'])] != res['log']:
                 chk.oracle_fail.append({'class': 'effects-not-a-prefix-of-the-unlimited-run', **info, 'got_log': res['log'], 'unlimited_log': b['log']})
                 continue
+        if tag.endswith('+debug'):
+            if n is None or 0 < lim < n:
+                nontrivial.add((pi, lim))
+            continue            # (the reference interpreter does not write the debug lines)
         # (1) the reference with the same limit
         try:
             exp = ref_run(b['model'], b.get('file_models', {}), lim)
@@ -194,8 +206,8 @@ def run(tier):
     # ---- correspondence
     corr_n = declined = 0
     if model_ok:
-        idxs = [i for i, (pi, lim, n) in enumerate(meta) if not programs[pi][2]]        # (includes need a fetch table: own term below)
-        inc = [i for i, (pi, lim, n) in enumerate(meta) if programs[pi][2]]
+        idxs = [i for i, (pi, lim, n) in enumerate(meta) if not programs[pi][2] and not programs[pi][0].endswith('+debug')]        # (includes need a fetch table: own term below)
+        inc = [i for i, (pi, lim, n) in enumerate(meta) if programs[pi][2] and not programs[pi][0].endswith('+debug')]
         budget = 300 if tier == 'quick' else 4000
         if len(idxs) > budget:
             idxs = sorted(r.sample(idxs, budget))
